@@ -103,7 +103,8 @@ def abs_particle(o, ptype, K_T=None):
 
 def abs_sbm(m):
     return {'particles': [abs_particle(m.particle, 0)], 'composition': list(m.particle.composition),
-            'K_T0': fnum(m.K_T0), 'delta_t': fnum(m.delta_t), 't': farr(m.t).reshape(-1), 'y': farr(m.y)}
+            'K_T0': fnum(m.K_T0), 'K_T0_0d': bool(isinstance(m.K_T0, np.ndarray) and np.ndim(m.K_T0) == 0),
+            'delta_t': fnum(m.delta_t), 't': farr(m.t).reshape(-1), 'y': farr(m.y)}
 
 
 def abs_bpm(m, particles=None):
@@ -213,7 +214,8 @@ def enc_header(h):
 
 
 def enc_sbm(r):
-    return enc_particles(r['particles']) + names(r['composition']) + [F(r['K_T0']), F(r['delta_t']), V(r['t'])] + M(r['y'])
+    return (enc_particles(r['particles']) + names(r['composition'])
+            + [F(r['K_T0']), B(r['K_T0_0d']), F(r['delta_t']), V(r['t'])] + M(r['y']))
 
 
 def enc_bpm(r):
@@ -299,7 +301,7 @@ def dec_particles(r):
 
 
 def dec_sbm(r):
-    return {'particles': dec_particles(r), 'composition': r.names(), 'K_T0': r.nx(), 'delta_t': r.nx(),
+    return {'particles': dec_particles(r), 'composition': r.names(), 'K_T0': r.nx(), 'K_T0_0d': bool(r.nx()), 'delta_t': r.nx(),
             't': np.array(r.nx(), dtype=float), 'y': r.m()}
 
 
@@ -386,8 +388,10 @@ def same(a, b):
     return bool(np.array_equal(np.signbit(a[ok]), np.signbit(b[ok])))
 
 
-def diff_files(real, model, skip_attr_values=()):
-    """list of differences between the dump of a real file and the model's file"""
+def diff_files(real, model, skip_attr_values=(), approx_vars=()):
+    """list of differences between the dump of a real file and the model's file; variables named in
+    `approx_vars` are compared to 1e-11 (the only arithmetic on the whole path is the re-normalisation of
+    delta_groups by the FluidMixture constructor, whose np.sum order the model does not reproduce)"""
     out = []
     ra = [(k, v) for k, v in real['attrs']]
     ma = [(k, v) for k, v in model['attrs']]
@@ -420,6 +424,8 @@ def diff_files(real, model, skip_attr_values=()):
             out.append('variable %s written cells: real %r model %r' % (v['name'], (~v['mask']).astype(int).tolist()[:40], (~w['mask']).astype(int).tolist()[:40]))
             continue
         keep = ~v['mask']
+        if v['name'] in approx_vars and near(v['data'][keep], w['data'][keep], TOL['gen_vs_source']):
+            continue
         if not same(v['data'][keep], w['data'][keep]):
             bad = np.where(keep)[0][[not same(x, y) for x, y in zip(v['data'][keep], w['data'][keep])]]
             out.append('variable %s values differ at flat indices %r: real %r model %r' % (v['name'], bad[:5].tolist(), v['data'][bad[:5]].tolist(), w['data'][bad[:5]].tolist()))
@@ -511,7 +517,7 @@ ARRAYS = {'sbm': ('t', 'y'), 'bpm': ('t', 'q'), 'spm': ('zi', 'yi', 'zo', 'yo')}
 SCALARS = {'sbm': ('K_T0', 'delta_t'),
            'bpm': ('X', 'D', 'Vj', 'phi_0', 'theta_0', 'Sj', 'Tj', 'cj', 'dt_max', 'sd_max', 'K_T0'),
            'spm': ('R', 'maxit', 'toler', 'delta_z', 'K_T0')}
-LISTS = {'sbm': ('composition',), 'bpm': ('tracers', 'chem_names', 'track'), 'spm': ('chem_names',)}
+LISTS = {'sbm': ('composition', 'K_T0_0d'), 'bpm': ('tracers', 'chem_names', 'track'), 'spm': ('chem_names',)}
 
 
 def diff_model(kind, a, b, tol_groups=0, state=True):
@@ -524,6 +530,8 @@ def diff_model(kind, a, b, tol_groups=0, state=True):
         if not same(a[k], b[k]):
             out.append((k, np.asarray(a[k]).tolist(), np.asarray(b[k]).tolist()))
     for k in LISTS[kind]:
+        if k == 'K_T0_0d' and not state:
+            continue            # representation of K_T0 (float / 0-d array): model correspondence only
         if a[k] != b[k]:
             out.append((k, a[k], b[k]))
     out += diff_particles(a['particles'], b['particles'], tol_groups, state)
@@ -934,6 +942,8 @@ def check_sim(ctx, job, cdir, kind, m, spec, tag):
     except Exception as e:
         tr = traceback.format_exc()
         key = 'resave-raises:sbm' if 'single_bubble_model.py' in tr else 'resave-raises:' + kind
+        if kind == 'sbm' and not os.path.exists(f2 + '.done'):
+            job.add('SaveLoad.sbm.save', enc_header(h) + enc_sbm(rec2), 'raises', {'what': 're-saving reloaded ' + tag})
         ctx.count('violation ' + key)
         case = {'error': '%s: %s' % (type(e).__name__, e), 'trace': tr[-600:], 'spec': sc.jsonable(spec)}
         if key in REPRO:
@@ -1004,8 +1014,7 @@ def sim_plan(ctx):
             ('spm', {'kind': r.choice(['mixed', 'soluble'])})]
     extra = ctx.n(0, 54)
     for i in range(extra):
-        k = ('sbm', 'bpm', 'bpm', 'spm')[i % 4] if i % 8 else 'spm'
-        plan.append((k, {}))
+        plan.append((('sbm', 'bpm', 'spm', 'bpm', 'sbm', 'spm')[i % 6], {}))
     return plan
 
 
@@ -1094,7 +1103,7 @@ def _run(ctx, lean_ok, tmp):
         else:
             r = Rd(res[1:])
             if kind == 'file':
-                diffs = diff_files(pl['real'], dec_file(r), skip_attr_values=pl['skip'])
+                diffs = diff_files(pl['real'], dec_file(r), skip_attr_values=pl['skip'], approx_vars=('delta_groups',))
             elif kind == 'particles':
                 ps = dec_particles(r)
                 chem = r.names()
